@@ -74,7 +74,7 @@ def gen_cases(rng, ctx):
         for (tname, k, target, payload, egress), (hname, h) in reqs:
             toks += [[k, 0], list(target), hdr_tok(h), list(payload)]
         li = line("c01_session", [cfg + [front]] + toks)
-        lm = line("c01_session", [cfg] + toks)
+        lm = line("c01_session", [[cfg[0], cfg[1], 2 if cfg[2] == 3 else cfg[2], cfg[3]]] + toks)   # (a case variant is a rejected label)
         cases.append(Case(li, lm, kind=kind + ("" if front == 0 else "-listener" if front == 1 else "-quic"), nontrivial=cfg[0] != 0,
                           meta={"cfg": cfg, "front": front,
                                 "reqs": [(t[0], t[4], h[0], None if h[1] is None else list(h[1])) for t, h in reqs]}))
@@ -93,15 +93,20 @@ def gen_cases(rng, ctx):
         session([1, http2, 0, 1], [(t, HEADERS[0]) for t in TARGETS] + [(t, HEADERS[3]) for t in TARGETS], "corpus:all-targets-unauthenticated-" + name, front)
         session([1, http2, 0, 1], [(TARGETS[0], HEADERS[0]), (TARGETS[0], HEADERS[1]), (TARGETS[0], HEADERS[0]), (TARGETS[3], HEADERS[3]), (TARGETS[5], HEADERS[10])],
                 "corpus:accepted-then-refused-" + name, front)
+    # (through the door only: a TLS client library lower-cases the server name it sends)
+    for front, http2 in ((0, 0), (0, 1)):
+        session([2, http2, 3, 1], [(TARGETS[0], HEADERS[0]), (TARGETS[2], HEADERS[0]), (TARGETS[0], HEADERS[1])], "corpus:sni-credentials-in-another-case", front)
     n = 260 if thorough else 70
     for i in range(n):
-        cfg = [rng.choice([1, 1, 2, 2, 0]), rng.below(2), rng.choice([0, 0, 1, 2]), 1]
+        cfg = [rng.choice([1, 1, 2, 2, 0]), rng.below(2), rng.choice([0, 0, 1, 2, 3]), 1]
         reqs = []
         for _ in range(rng.choice([1, 2, 4, 6])):
             t = rng.choice(TARGETS)
             h = rng.choice(HEADERS) if rng.chance(2, 3) else rng.choice(HEADERS[:5])
             reqs.append((t, h))
         front = [0, 1, 3][i % 3]
+        if cfg[2] == 3 and front != 0:
+            cfg[2] = 2
         session(cfg, reqs, "session:auth%d-%s-sni%d" % (cfg[0], "h3" if front == 3 else "h%d" % (2 if cfg[1] else 1), cfg[2]), front)
     return cases
 
@@ -117,7 +122,7 @@ def judge(case, impl, model, spec, ctx):
     manswers = [untok(t) for t in model.split()] if model else None
     out = []
     auth_cfg, http2, sni = cfg[0], cfg[1], cfg[2]
-    dropped = auth_cfg != 0 and ((sni == 2) or (sni == 1 and auth_cfg == 1))
+    dropped = auth_cfg != 0 and ((sni in (2, 3)) or (sni == 1 and auth_cfg == 1))
     sni_ok = auth_cfg == 2 and sni == 1
     front = case.meta.get("front", 0)
     proto = "HTTP/3 over the real QUIC listener" if front == 3 else ("HTTP/2" if http2 else "HTTP/1.1") + (" over the real TLS listener" if front == 1 else "")
@@ -127,7 +132,7 @@ def judge(case, impl, model, spec, ctx):
         status, challenge, warn, tcp, udp = a[0], a[1], a[2], a[3], a[4]
         what = "%s request %d (%s, Proxy-Authorization %s%s), authenticator %s, SNI credentials %s" % (
             proto, n, tname, hname, "" if hbytes is None else " = %r" % bytes(hbytes)[:40],
-            ["none", "registry", "custom"][auth_cfg], ["none", "accepted", "rejected"][sni])
+            ["none", "registry", "custom"][auth_cfg], ["none", "accepted", "rejected", "the accepted ones in another case"][sni])
         if dropped:
             if status != 0 or tcp or udp:
                 out.append(("violation", "%s: served (status %d, egress tcp=%d udp=%d) on a connection whose SNI credentials the authenticator rejects" % (what, status, tcp, udp)))
